@@ -43,6 +43,19 @@ CHECKS = {
          "rect over a 144-tuple grid; arc over centres x radii (0..1000) x 16-48 start angles x 19-43 sweeps of both signs and beyond one turn, with and without a current point (radius within 0.5%, monotone angle in the sweep's direction, covered angle, end point, leading line_to); Path::transform of every op string up to depth 3-4 under 11 transforms incl. singular ones (bit-equal to transform_point, order and winding kept); finish() order.",
          "f64 evaluation of emitted ops; 33 samples per quad.",
          "DESIGN.md section 4, C20"),
+
+ "C05": ("explicit-state exploration of clip-stack histories against a reference clip stack (M-CLIP), with probe draws checked per pixel under the model's clip",
+         "All histories of push_clip_rect (inner, overlapping, disjoint, inverted, off-surface, larger than the surface) / push_clip (AA triangle, half-pixel rect, even-odd ring, off-surface, aligned) / pop_clip / set_transform up to depth 3-4 on fresh targets; after each, the implementation's effective clip equals the intersection of the pushed rects and the muldiv255 product of the pushed paths' coverages, and 11 probe calls (fills in three modes, fill_rect, clear, mask, draw_image_at, stroke, layer) are checked pixel by pixel under the model's clip.",
+         "Clip path coverage is the implementation's own white antialiased fill (validated by C01/C08); three or more nested paths admit any association order of the rounding product.",
+         "DESIGN.md section 4, C05"),
+ "C06": ("explicit-state exploration of balanced layer scenes; per-transition step oracle plus an isolated-surface reference machine (M-LAYER) for the final pixels",
+         "Clip context x push_layer(opacity, blend) x every well-nested inner sequence (draws incl. clear, nested layers, clip and transform changes) up to depth 2-3 x pop: every draw goes to the innermost layer buffer only, push/pop leave transform and clip stack alone, a layer under an empty clip is harmless, pop composites the group once per M-PIX; the final surface equals that of a machine keeping every layer as a separate transparent DrawTarget.",
+         "Group compositing formula as in C03; reference layers are real DrawTargets driven by the same calls (only isolation and the single group composite are modelled).",
+         "DESIGN.md section 4, C06"),
+ "C10": ("explicit-state exploration of call histories on one long-lived target; each transition compared with the same call on a fresh target holding the same visible state; merged BFS on a canonical state key",
+         "All well-nested histories over a 30-call alphabet to depth 3-4 unmerged and to depth 4-6 breadth-first with merging (19M distinct states at thorough): identical buffers on reused and fresh targets, rasteriser idle after every call.",
+         "Merging key = 64-bit hash of (all buffers, transform, clip stack, layers, idle flag, hidden path cursor); both sides are the implementation (differential).",
+         "DESIGN.md section 4, C10"),
 }
 NOT_YET = "check not built yet in this round (design in DESIGN.md section 4); will be claimed once its explorer exists"
 
